@@ -22,7 +22,7 @@ func c06Fragment(g *docGen, kind int) (src string, what string) {
 		g.noTrim = true
 		return "{{ " + g.rg.pick([]string{"a", "b|upper", "n + 1", "s|length", "\"lit\"", "lst|join:\",\"", "u"}) + " }}", "variable"
 	case 4:
-		return "{% comment %}" + g.rg.pick([]string{"x", "{{ never }}", "{% if %}", ""}) + "{% endcomment %}", "commenttag"
+		return "{% comment %}" + g.rg.pick([]string{"x", "{{ never }}", "{% if %}", "", "{% comment %}", "a{% comment x %}b", "{% endif %}{% endfor %}", "{# #}", "{% endcomment", "{%comment%}", "{% block b %}"}) + "{% endcomment %}", "commenttag"
 	case 5:
 		return "{% templatetag " + g.rg.pick([]string{"openblock", "closeblock", "openvariable", "closevariable", "openbrace", "closebrace", "opencomment", "closecomment"}) + " %}", "templatetag"
 	}
